@@ -11,6 +11,7 @@ import (
 	"fmt"
 	"os"
 	"runtime"
+	"strings"
 	"sync"
 	"time"
 	"unsafe"
@@ -331,7 +332,7 @@ func vfAcquire(me int) {
 		select {
 		case <-vfSched.threads[me].turn:
 		case <-time.After(5 * time.Second):
-			panic("vf: goroutine never scheduled again in replay")
+			panic("vf: goroutine never scheduled again in replay; blocked: " + vfBlockedSites())
 		}
 	}
 }
@@ -553,4 +554,45 @@ func vfDeadlinePick(hours []int) time.Time {
 		return time.Time{}
 	}
 	return time.Now().Add(time.Duration(h) * time.Hour)
+}
+
+// vfBlockedSites lists, from the stacks of all goroutines, the library source
+// positions at which a goroutine is parked in a channel operation or a lock
+// (native diagnosis of a deadlock found by the engine).
+func vfBlockedSites() string {
+	buf := make([]byte, 1<<20)
+	buf = buf[:runtime.Stack(buf, true)]
+	out := ""
+	for _, g := range strings.Split(string(buf), "\n\n") {
+		lines := strings.Split(g, "\n")
+		if len(lines) < 3 {
+			continue
+		}
+		state := ""
+		if i := strings.Index(lines[0], "["); i >= 0 {
+			state = strings.TrimSuffix(strings.TrimSpace(lines[0][i:]), ":")
+		}
+		if !strings.Contains(state, "chan send") && !strings.Contains(state, "chan receive") && !strings.Contains(state, "sync.Mutex.Lock") && !strings.Contains(state, "semacquire") {
+			continue
+		}
+		// first frame in a library (non-harness, non-test) file of this package
+		for i := 1; i+1 < len(lines); i += 2 {
+			if !strings.Contains(lines[i], "github.com/gorilla/websocket.") {
+				continue
+			}
+			loc := strings.TrimSpace(lines[i+1])
+			if j := strings.LastIndex(loc, "/"); j >= 0 {
+				loc = loc[j+1:]
+			}
+			if j := strings.Index(loc, " "); j >= 0 {
+				loc = loc[:j]
+			}
+			if strings.HasPrefix(loc, "zz_verif") || strings.HasSuffix(strings.SplitN(loc, ":", 2)[0], "_test.go") {
+				continue
+			}
+			out += state + "@" + loc + " "
+			break
+		}
+	}
+	return out
 }
